@@ -8,7 +8,7 @@
    RegexpFile", constant regexp_openfile_wraps regenerated from regexpfs.go) carries that fact as a
    hypothesis here; Props/C13Wraps.v discharges it by reflexivity and compiles iff it holds. *)
 From AF Require Import Lib.Bytes Lib.Path Lib.Ops Gen.Consts Model.MemFile Model.MemFs Model.ReadOnly
-  Model.Regexp Model.Stack Proofs.MemFsBasics Proofs.RegexpProof.
+  Model.Regexp Model.Stack Proofs.MemFsBasics Proofs.RegexpProof Proofs.MemBelowRefused Proofs.RegexpBelowFile.
 Local Open Scope Z_scope.
 
 (* 1. A call whose name argument is a non-matching non-directory — the inner Stat reports a
@@ -172,6 +172,27 @@ Theorem C13_hidden_files_protected_mem :
 Proof. exact re_mem_hidden_protected. Qed.
 Print Assumptions C13_hidden_files_protected_mem.
 
+(* 7. ... and no call through the filter reaches BELOW a regular file of MemMapFs (hidden or not).
+   The filter looks at the name it is given, never at the name's ancestors: Create of a matching name,
+   Mkdir, MkdirAll and Rename to a matching name are forwarded.  When, walking up from the (free) name
+   with filepath.Dir, the first existing name is a regular file (nearest_is_file, Proofs/MemBelowRefused.v)
+   MemMapFs answers ENOTDIR and holds exactly what it held: every path, kind, content, mode, mtime.
+   Before memmap.go got that check (Gen/Consts.v memfs_refuses_below_file, C01_below_file_switch) the
+   entry was created and the hidden regular file /x.dat BECAME A DIRECTORY: the four known findings
+   hidden-became-dir:{Create,Mkdir,MkdirAll,Rename}. *)
+Theorem C13_nothing_created_below_a_file_mem :
+  forall (m : str -> bool) s w p,
+  let k := normalize_path p in
+  lookup s k = None -> nearest_is_file s (path_dir k) ->
+  (forall o, o = Create p \/ (exists perm, o = Mkdir p perm) \/ (exists perm, o = MkdirAll p perm) ->
+     fs_view (fst (fst (re_step m_step m (s, w) o))) = fs_view s /\
+     snapshot (fst (fst (re_step m_step m (s, w) o))) = snapshot s /\
+     exists e, snd (re_step m_step m (s, w) o) = RErr e) /\
+  (forall q, fs_view (fst (fst (re_step m_step m (s, w) (Rename q p)))) = fs_view s /\
+             snapshot (fst (fst (re_step m_step m (s, w) (Rename q p)))) = snapshot s).
+Proof. exact re_mem_nothing_below_a_file. Qed.
+Print Assumptions C13_nothing_created_below_a_file_mem.
+
 Theorem C13_memfs_readdir_shape : readdir_shape m_step.
 Proof. exact m_step_readdir_shape. Qed.
 Print Assumptions C13_memfs_readdir_shape.
@@ -201,6 +222,21 @@ Example C13_ex_steps : snd (run_steps (re_step m_step (re_match 0)) (c13_demo, [
      RErr (E KENOENT); RErr (E KENOENT); RInfo (mkFi [99]%N true 42 (Z.lor mode_dir 493) (BIG + 6));
      RHandle 2; RData [7]%N None].
 Proof. vm_compute. reflexivity. Qed.
+
+(* corpus/C13 d1-d4: the four calls below the hidden regular file /x.dat are refused (ENOTDIR from
+   MemMapFs) and /x.dat is still the regular file holding 1 2 3 *)
+Example C13_ex_below_hidden_file :
+  let below (t : list N) : str := (c13_xdat ++ t)%list in
+  nearest_is_file c13_demo (path_dir (below [47;97;46;116;120;116]%N)) /\
+  map (fun o => let x := re_step m_step (re_match 0) (c13_demo, []) o in
+                (snd x, beqb (concat (map e_data (snapshot (fst (fst x))))) (concat (map e_data (snapshot c13_demo))),
+                 map e_dir (filter (fun e => beqb (e_path e) c13_xdat) (snapshot (fst (fst x))))))
+    [Create (below [47;97;46;116;120;116]%N);                    (* /x.dat/a.txt *)
+     Mkdir (below [47;99]%N) 493;                                (* /x.dat/c *)
+     MkdirAll (below [47;99;47;99]%N) 493;                       (* /x.dat/c/c *)
+     Rename c13_atxt (below [47;97;46;116;120;116]%N)]           (* /a.txt -> /x.dat/a.txt *)
+  = repeat (RErr (EW KENOTDIR), true, [false]) 4.
+Proof. split; [eapply nif_here; vm_compute; reflexivity | vm_compute; reflexivity]. Qed.
 
 (* the listing through Open is filtered whatever the switch; through OpenFile it leaks /x.dat when
    OpenFile does not wrap (switch off = regexpfs.go before the fix) and is filtered when it does *)
